@@ -429,3 +429,105 @@ func inCaseOf(info *types.Info, fd *ast.FuncDecl, n ast.Node, k string) bool {
 	})
 	return found
 }
+
+// E11SubpathFlag: a flag raised by a Close command is lowered again when the next sub-path begins.
+func E11SubpathFlag(c *core.Ctx, r *core.Report) {
+	r.Rule("E11.subpath-flag", "in a loop over the commands of a path, a boolean local that the CloseCmd case sets to true describes the sub-path being processed; on every path through the MoveToCmd case (the boundary to the next sub-path, in either scan direction) it is false afterwards. Decided by evaluating the MoveToCmd case from both values of the flag. A flag that stays raised makes the next sub-path be treated as closed: Reverse then replaces a line of an open sub-path by a Close")
+	p := c.MustPkg("")
+	info := p.TypesInfo
+	n := 0
+	for _, fd := range core.AllFuncDecls(p) {
+		if fd.Body == nil || strings.HasSuffix(c.Fset.Position(fd.Pos()).Filename, "_test.go") {
+			continue
+		}
+		fname := "canvas." + core.FuncName(fd)
+		ast.Inspect(fd.Body, func(m ast.Node) bool {
+			loop, ok := m.(*ast.ForStmt)
+			if !ok {
+				return true
+			}
+			var sw *ast.SwitchStmt
+			for _, st := range loop.Body.List {
+				if s, ok := st.(*ast.SwitchStmt); ok && s.Tag != nil {
+					sw = s
+				}
+			}
+			if sw == nil {
+				return true
+			}
+			tag, ok := core.Unparen(sw.Tag).(*ast.Ident)
+			if !ok {
+				return true
+			}
+			var closeCase, moveCase *ast.CaseClause
+			for _, cs := range sw.Body.List {
+				cc := cs.(*ast.CaseClause)
+				ks := core.CaseConsts(info, cc)
+				if len(ks) == 1 && ks[0] == "CloseCmd" {
+					closeCase = cc
+				}
+				if len(ks) == 1 && ks[0] == "MoveToCmd" {
+					moveCase = cc
+				}
+			}
+			if closeCase == nil {
+				return true
+			}
+			// flags: bool locals assigned the constant true at the top level of the Close case
+			var flags []types.Object
+			for _, st := range closeCase.Body {
+				if as, ok := st.(*ast.AssignStmt); ok && as.Tok == token.ASSIGN && len(as.Lhs) == 1 && len(as.Rhs) == 1 {
+					if rid, ok := as.Rhs[0].(*ast.Ident); ok && rid.Name == "true" {
+						if id, ok := as.Lhs[0].(*ast.Ident); ok {
+							if o := core.ObjOf(info, id); o != nil && o.Pos() < loop.Pos() {
+								flags = append(flags, o)
+							}
+						}
+					}
+				}
+			}
+			for _, fl := range flags {
+				// only flags the loop itself consults: a flag read only after the loop describes the last
+				// sub-path (Path.offset works on one sub-path at a time)
+				readInLoop := false
+				ast.Inspect(loop.Body, func(k ast.Node) bool {
+					switch x := k.(type) {
+					case *ast.IfStmt:
+						ast.Inspect(x.Cond, func(q ast.Node) bool {
+							if id, ok := q.(*ast.Ident); ok && core.ObjOf(info, id) == fl {
+								readInLoop = true
+							}
+							return true
+						})
+					}
+					return true
+				})
+				if !readInLoop {
+					continue
+				}
+				n++
+				key := fmt.Sprintf("%s|flag raised by Close is lowered at MoveTo", fname)
+				if moveCase == nil {
+					r.Fail("E11.subpath-flag", key, c.Pos(sw.Pos()), fmt.Sprintf("`%s` is set by the Close case but the command switch has no MoveTo case that could lower it", fl.Name()))
+					continue
+				}
+				it := &icInterp{c: c, info: info, first: map[types.Object]bool{}, viol: map[string]token.Pos{}, bools: []types.Object{fl}, cmdObj: core.ObjOf(info, tag), cmd: "MoveToCmd"}
+				out := it.stmts(moveCase.Body, map[icState]bool{{flags: "T"}: true, {flags: "F"}: true})
+				stays := false
+				for s := range out {
+					if s.flags != "F" {
+						stays = true
+					}
+				}
+				if stays {
+					r.Fail("E11.subpath-flag", key, c.Pos(moveCase.Pos()), fmt.Sprintf("`%s` can still be true (or unknown) after the MoveTo case: the sub-path that follows in scan order is handled as if it had been closed", fl.Name()))
+				} else {
+					r.OK("E11.subpath-flag", key, c.Pos(moveCase.Pos()), "")
+				}
+			}
+			return true
+		})
+	}
+	r.Count("E11.subpath-flags", n)
+	r.Floor("E11.subpath-flags", 1)
+}
